@@ -198,7 +198,7 @@ def synthetic_world(chk, rng, wi):
     aff = {units[0]: (F(1), F(0))}
     for s in units[1:]:
         a = rng.choice([F(1), F(5, 9), F(9, 5), F(2), F(1, 3), F(7, 10),
-                        F(100)])
+                        F(100), F(3), F(1, 7), F(12)])
         b = rng.choice([F(0), F(27315, 100), F(32), F(-40), F(1, 7),
                         F(-1234, 10)])
         aff[s] = (a, b)
@@ -231,11 +231,20 @@ def synthetic_world(chk, rng, wi):
                 rows[key] = (f * rng.choice([2, F(1, 2), 1]),
                              o + rng.choice([0, 1, -3]))
     form = rng.choice(["mapping", "list"])
+
+    def enc(x):
+        # every rational kind, incl. plain ints
+        if x.denominator == 1 and rng.random() < 0.6:
+            return num(x, "int")
+        from ..ctl import dec_str
+        if dec_str(x) is not None and rng.random() < 0.6:
+            return num(x, "D")
+        return num(x, "F")
     if form == "mapping":
-        table = ["dict", [[["t", [U(u), U(v)]], ["t", [num(f), num(o)]]]
+        table = ["dict", [[["t", [U(u), U(v)]], ["t", [enc(f), enc(o)]]]
                           for (u, v), (f, o) in rows.items()]]
     else:
-        table = ["l", [["t", [U(u), U(v), num(f), num(o)]]
+        table = ["l", [["t", [U(u), U(v), enc(f), enc(o)]]
                        for (u, v), (f, o) in rows.items()]]
     wid = "world%d" % wi
     pre_sub = ([{"id": "conv", "e": ["c", ["g", "quantity:TableConverter"],
